@@ -16,6 +16,8 @@ reaches the rules in the same shape:
   K7  a, b = x, y                 ->  a = x; b = y       (names only, no
                                       target read on the right-hand side)
   K8  a = b = CONST               ->  a = CONST; b = CONST
+  K9  t = delayed(f); t(x)        ->  delayed(f)(x)     (t bound once and
+                                      used only as a callee)
 
 The rewrites are conservative: K1/K2 require that the accumulator is
 initialised empty immediately before the loop (statements in between must not
@@ -194,7 +196,38 @@ class Canon(ast.NodeTransformer):
         prev, self.cur_fn = self.cur_fn, node
         self.generic_visit(node)
         self.cur_fn = prev
+        self._inline_task_aliases(node)
         return node
+
+    def _inline_task_aliases(self, fn):
+        """K9  t = delayed(f) ... t(args)  ->  delayed(f)(args)   (t bound
+        once, used only as a callee)"""
+        for st in list(ast.walk(fn)):
+            if not (isinstance(st, ast.Assign) and len(st.targets) == 1
+                    and isinstance(st.targets[0], ast.Name)
+                    and isinstance(st.value, ast.Call)
+                    and ast.unparse(st.value.func).split(".")[-1]
+                    == "delayed" and len(st.value.args) == 1
+                    and not st.value.keywords):
+                continue
+            name = st.targets[0].id
+            stores = [n for n in ast.walk(fn) if isinstance(n, ast.Name)
+                      and n.id == name and isinstance(n.ctx, (ast.Store,
+                                                              ast.Del))]
+            loads = [n for n in ast.walk(fn) if isinstance(n, ast.Name)
+                     and n.id == name and isinstance(n.ctx, ast.Load)]
+            callees = [c for c in ast.walk(fn) if isinstance(c, ast.Call)
+                       and isinstance(c.func, ast.Name)
+                       and c.func.id == name]
+            if len(stores) != 1 or not loads or len(loads) != len(callees):
+                continue
+            for c in callees:
+                c.func = _copy(st.value)
+                ast.copy_location(c.func, c)
+            # the binding itself becomes a no-op
+            st.value = ast.Constant(value=None)
+            self.applied["K9"] = self.applied.get("K9", 0) + 1
+        ast.fix_missing_locations(fn)
 
     visit_AsyncFunctionDef = visit_FunctionDef
 
